@@ -12,13 +12,22 @@ Import ListNotations.
 (* ---------- operations and observable results ---------- *)
 Inductive el_op :=
 | OpAdd (k : key) | OpRemove (k : key) | OpPop | OpPeek
-| OpContains (k : key) | OpSize | OpIsEmpty | OpClear.
+| OpContains (k : key) | OpSize | OpIsEmpty | OpClear
+| OpStr | OpRepr.                (* str(el), repr(el): observers *)
 
 Inductive el_out :=
 | OutNone                       (* add, clear: returns None *)
 | OutBool (b : bool)
 | OutKey (k : option key)       (* pop / peek: None on empty list *)
-| OutNat (n : nat).
+| OutNat (n : nat)
+| OutStr.                       (* a string; its text (the private array layout) is not modelled *)
+
+(* the operations that only look at the list *)
+Definition is_observer (op : el_op) : bool :=
+  match op with
+  | OpPeek | OpContains _ | OpSize | OpIsEmpty | OpStr | OpRepr => true
+  | _ => false
+  end.
 
 (* ---------- specification: the sorted multiset of pending keys ---------- *)
 Fixpoint insert (k : key) (l : list key) : list key :=
@@ -49,6 +58,7 @@ Definition spec_step (s : list key) (op : el_op) : list key * el_out :=
   | OpSize => (s, OutNat (length s))
   | OpIsEmpty => (s, OutBool (match s with [] => true | _ => false end))
   | OpClear => ([], OutNone)
+  | OpStr | OpRepr => (s, OutStr)
   end.
 
 (* ---------- the heap-array implementation, generic in the heap library ---------- *)
@@ -83,6 +93,7 @@ Definition impl_step (L : heaplib) (h : list key) (op : el_op) : list key * el_o
   | OpSize => (h, OutNat (length h))
   | OpIsEmpty => (h, OutBool (Nat.eqb (length h) 0))
   | OpClear => ([], OutNone)
+  | OpStr | OpRepr => (h, OutStr)
   end.
 
 (* The pinned tree's remove() (no re-heapify), kept to state the refutation. *)
@@ -112,6 +123,8 @@ Definition impl_contains_op (L : heaplib) (h : list key) (k : key) := impl_step 
 Definition impl_size (L : heaplib) (h : list key) := impl_step L h OpSize.
 Definition impl_is_empty (L : heaplib) (h : list key) := impl_step L h OpIsEmpty.
 Definition impl_clear (L : heaplib) (h : list key) := impl_step L h OpClear.
+Definition impl_str (L : heaplib) (h : list key) := impl_step L h OpStr.
+Definition impl_repr (L : heaplib) (h : list key) := impl_step L h OpRepr.
 
 (* ---------- creation of events (simevent.py, SimEvent.__init__) ----------
    The id of an event is its creation stamp: ONE counter, kept on the class SimEvent,
@@ -232,6 +245,7 @@ Definition out_eqb (a b : el_out) : bool :=
   | OutBool x, OutBool y => Bool.eqb x y
   | OutKey x, OutKey y => okey_eqb x y
   | OutNat x, OutNat y => Nat.eqb x y
+  | OutStr, OutStr => true
   | _, _ => false
   end.
 
